@@ -18,6 +18,9 @@ CUSTOM = [{"cls": list("AG"), "val6": -5500000, "regex": "[AG]", "val": -5.5},
           {"cls": list("KR"), "val6": -30010000, "regex": "[KR]", "val": -30.01}]
 
 
+
+RULE_EXTRA = ('one annotation object serves all six return types; the recorded Fragmenter answer is its second one; charge lists in any order with gaps; with a precision the reported mass and m/z lie within half a unit of the last place of the full-precision values.')
+
 def gen(rnd, maxlen):
     n = rnd.randint(1, maxlen)
     A = anngen.annotation(rnd, n, n, alphabet=RES, kinds="massy2", intervals=False,
